@@ -32,7 +32,7 @@ class Tree:
         if r < 0.60 and (not in_cds or rng.random() < 0.1):
             opts = rng.sample(range(NPROF), rng.randint(1, 4))
             return ("minimum", neg, rng.randint(1, 4), opts)
-        if r < 0.78 and (not in_cds or rng.random() < 0.05):
+        if r < 0.78 and (not in_cds or rng.random() < 0.25):
             return ("cds", neg, self.items(depth - 1, True))
         return ("group", neg, self.items(depth - 1, in_cds))
 
@@ -174,8 +174,183 @@ def enc_result(res, names):
 RULE = ("random condition trees built through the rule_parser class constructors (all five kinds, negation anywhere, and-chains "
         "under or-lists, mostly parser-shaped, depth <= 4) x 1-7 genes on a line or ring with gaps drawn from {overlap, adjacent, "
         "cutoff-1, cutoff, cutoff+1, far}, incl. across the origin and origin-spanning genes x 0-3 hits per gene with scores on "
-        "the minscore thresholds; detect() evaluated for every gene.  Non-trivial = the tree has >= 2 leaves and some gene other "
-        "than the evaluated one is within the cutoff; distinct by flat encoding")
+        "the minscore thresholds; detect() evaluated for every gene; every implementation answer is compared with the faithful "
+        "model (fn 1) AND with the extracted specification holds/reasons/anc_spec (fn 2: a difference is a counterexample with "
+        "its input).  Second stream: apply_cluster_rules on a real secmet Record with one constructor-built rule; the arguments "
+        "of every rule.detect call are recorded and given to the model of the promotion loop (fn 3) and to its specification "
+        "(fn 4).  Non-trivial = the tree has >= 2 leaves and some gene other than the evaluated one is within the cutoff; "
+        "distinct by flat encoding")
+
+
+def enc_ctx(cutoff, circ, genes, hits):
+    """ genes: [(gid, parts)] in dict order; hits: {gid: [(profile, doubled score)]} in dict order """
+    ctx = [cutoff] + ([0] if circ is None else [1, circ]) + [len(genes)]
+    for gid, parts in genes:
+        ctx += [gid, len(parts)] + [x for p in parts for x in p]
+    ctx.append(len(hits))
+    for gid, hs in hits.items():
+        ctx += [gid, len(hs)] + [x for h in hs for x in h]
+    return ctx
+
+
+def spec_verdicts(chk, cases, impl_outs, spec_fn, label, describe):
+    """ the independent verdict: the extracted specification (written from the property text, no reference to the
+        evaluator) is evaluated on the input of EVERY case and the implementation's answer must be that answer.
+        A difference is a violation of the property with a concrete failing input. """
+    spec_cases = [[c[0], spec_fn] + c[2:] for c in cases]
+    spec_outs = common.run_driver(spec_cases)
+    bad = [i for i, (s, o) in enumerate(zip(spec_outs, impl_outs)) if s != o]
+    chk.extra.setdefault("spec_verdicts", 0)
+    chk.extra["spec_verdicts"] += len(cases)
+    chk.extra.setdefault("spec_failures", 0)
+    chk.extra["spec_failures"] += len(bad)
+    if bad:
+        bad.sort(key=lambda i: len(cases[i]))
+        first = bad[0]
+        what = []
+        spec, impl = spec_outs[first], impl_outs[first]
+        if spec_fn == 2 and spec and impl and impl[0] >= 0:
+            if spec[0] != impl[0]:
+                what.append("truth value differs from the documented boolean meaning")
+            n_s, n_i = spec[1], impl[1]
+            if spec[1:2 + n_s] != impl[1:2 + n_i]:
+                what.append("reason profiles differ from the rule's profiles hitting the gene (cds/minscore provisos)")
+            if spec[2 + n_s:] != impl[2 + n_i:]:
+                what.append("ancillary hits differ from the in-range genes supplying a name/minimum")
+        chk.violation("counterexample", f"{label}: implementation answer violates the specification on {len(bad)} case(s)"
+                      + (": " + "; ".join(what) if what else ""),
+                      {"theorem_or_correspondence": label, "function": cases[first][1], "flat": cases[first],
+                       "implementation": impl, "specification": spec, "input": describe(first),
+                       "failing_cases": len(bad)})
+    return spec_outs
+
+
+def apply_rules_stream(chk, rng, trees, names, n_cases):
+    """ apply_cluster_rules with one rule on a real Record; the promotion of ancillary hits to rule hits """
+    import detect_util
+    from antismash.common.hmm_rule_parser import rule_parser as rp, cluster_prediction
+    from antismash.common.hmm_rule_parser.structures import ProfileHit
+    cases, impl_outs, inputs = [], [], []
+    while len(cases) < n_cases:
+        if rng.random() < 0.6:
+            tree = ("group", False, trees.items(rng.choice([0, 1, 2]), False))
+        else:
+            tree = trees.cond(rng.choice([1, 2, 3]), False)
+        if tree[0] not in ("group", "cds"):
+            tree = ("group", False, [("c", tree)])
+        try:
+            conditions = build(tree)
+            cutoff, circ, genes = gen_layout(rng)
+            rule = rp.DetectionRule("r", "cat", cutoff, 0, conditions)
+        except ValueError:
+            chk.count("apply_rejected")
+            continue
+        hits = gen_hits(rng, genes, [0, 10, 25, 50])
+        if rng.random() < 0.25:
+            # directed: a chain of genes each in range of its neighbours only, the profiles of an and-chain (or of a
+            # minimum) spread over them, so that only inner genes anchor and the outer ones are promoted
+            k = rng.choice([3, 3, 4, 5])
+            cutoff = rng.choice([5, 20])
+            profs = rng.sample(range(NPROF), k)
+            if rng.random() < 0.7:
+                tree = ("group", False, [("and", [("single", False, p) for p in profs])])
+            else:
+                tree = ("group", False, [("and", [("single", False, profs[0]), ("minimum", False, k - 1, profs[1:])])])
+            conditions = build(tree)
+            rule = rp.DetectionRule("r", "cat", cutoff, 0, conditions)
+            pos, genes, circ = rng.randint(0, 5), [], None
+            for i in range(k):
+                length = rng.randint(2, 9)
+                genes.append((i, [(pos, pos + length, rng.choice([1, -1]))]))
+                pos += length + rng.choice([cutoff - 1, cutoff - 1, cutoff - 2, cutoff])
+            order = profs[:]
+            rng.shuffle(order)
+            hits = {i: [(order[i], 100)] for i in range(k)}
+            chk.count("apply_directed_chain")
+        if not hits:
+            continue
+        end = max(e for _, parts in genes for _, e, _ in parts)
+        length = circ if circ else end + rng.choice([0, 1, cutoff, cutoff + 5])
+        try:
+            record = detect_util.make_record(length, bool(circ), [(f"g{gid}", parts) for gid, parts in genes])
+        except Exception:  # pylint: disable=broad-except
+            chk.count("apply_record_rejected")
+            continue
+        results = {f"g{gid}": [ProfileHit(f"g{gid}", pname(p), s2 / 2, 1e-10) for p, s2 in hs] for gid, hs in hits.items()}
+        parts_of = dict(genes)
+        calls = []
+        original = rule.detect
+
+        self_anchors = set()
+
+        def spy(name, feats, res, circular_origin=None, _calls=calls, _orig=original, _self=self_anchors):
+            _calls.append((name, list(feats), {k: [(names[h.query_id], int(round(h.bitscore * 2))) for h in v]
+                                                 for k, v in res.items()}, circular_origin))
+            answer = _orig(name, feats, res, circular_origin=circular_origin)
+            if answer.met and answer.matches:
+                _self.add(int(name[1:]))
+            return answer
+        rule.detect = spy
+        try:
+            domains, type_hits = cluster_prediction.apply_cluster_rules(record, results, [rule])
+        except Exception as exc:  # pylint: disable=broad-except
+            chk.count("apply_error_" + type(exc).__name__)
+            continue
+        flat = [PROP, 3, len(calls)]
+        for name, feat_names, res, origin in calls:
+            gl = [(int(f[1:]), parts_of[int(f[1:])]) for f in feat_names]
+            flat += [int(name[1:])] + enc_ctx(cutoff, origin, gl, {int(k[1:]): v for k, v in res.items()})
+        flat += enc_tree(tree)
+        recorded = {int(g[1:]): sorted(names[m] for m in by_rule["r"]) for g, by_rule in domains.items() if "r" in by_rule}
+        out = [len(recorded)]
+        for gid in sorted(recorded):
+            out += [gid, len(recorded[gid])] + recorded[gid]
+        if set(recorded) != {int(g[1:]) for g in type_hits.get("r", set())}:
+            out.append(-2)      # cluster_type_hits and the per-gene domains name different genes
+        cases.append(flat)
+        impl_outs.append(out)
+        inputs.append({"tree": tree, "cutoff": cutoff, "record_length": length, "circular": bool(circ), "genes": genes,
+                       "hits": hits, "detect_calls": calls, "implementation": out})
+        chk.count("apply_rule_cases")
+        if set(recorded) - self_anchors:
+            chk.count("apply_promoted_gene_not_anchoring_itself")
+        chk.count("apply_hits_%d" % min(len(recorded), 4))
+        chk.note_case(flat, len(recorded) >= 2, inputs[-1] if len(recorded) >= 2 and rng.random() < 0.01 else None)
+    return cases, impl_outs, inputs
+
+
+def exhaustive_small():
+    """ a small finite sub-domain enumerated completely (thorough tier) """
+    import itertools
+    simple = [(kind, neg, p) for kind in ("single", "score") for neg in (False, True) for p in (0, 1)]
+    simple = [("single", n, p) if k == "single" else ("score", n, p, 10) for k, n, p in simple]
+    minimums = [("minimum", neg, k, [0, 1]) for neg in (False, True) for k in (1, 2)]
+    all_leaves = simple + minimums
+    trees = [("group", False, [("c", leaf)]) for leaf in all_leaves]
+    for first, second in itertools.product(all_leaves, repeat=2):
+        trees.append(("group", False, [("and", [first, second])]))
+        trees.append(("group", False, [("c", first), ("c", second)]))
+    for first, second in itertools.product(simple, repeat=2):
+        for neg in (False, True):
+            trees.append(("group", False, [("c", ("cds", neg, [("and", [first, second])]))]))
+            trees.append(("group", False, [("c", ("cds", neg, [("c", first), ("c", second)]))]))
+    cutoff = 5
+    layouts = []
+    for gap in (cutoff - 1, cutoff):
+        layouts.append((None, [(0, [(2, 8, 1)]), (1, [(8 + gap, 14 + gap, -1)])]))
+        # ring of length n: gene 1 ends at n - x, gene 0 starts at gap - x: distance across the origin = gap
+        layouts.append((60, [(0, [(gap - 2, 12, 1)]), (1, [(50, 58, 1)])]))
+    options = [None, 19, 20]        # absent, doubled score 9.5, doubled score 10
+    cells = list(itertools.product(options, repeat=4))
+    for tree in trees:
+        for circ, genes in layouts:
+            for cell in cells:
+                hits = {}
+                for gid in (0, 1):
+                    hs = [(p, cell[2 * gid + p]) for p in (0, 1) if cell[2 * gid + p] is not None]
+                    if hs:
+                        hits[gid] = hs
+                yield tree, cutoff, circ, genes, hits
 
 
 def run(chk):
@@ -187,20 +362,9 @@ def run(chk):
     rng = chk.rng
     names = {pname(i): i for i in range(NPROF)}
     target = 25000 if chk.tier == "quick" else 400000
-    cases, impl_outs = [], []
+    cases, impl_outs, inputs = [], [], []
     trees = Tree(rng)
-    while len(cases) < target:
-        tree = trees.cond(rng.choice([1, 2, 3, 4]), False)
-        if tree[0] not in ("group", "cds") and rng.random() < 0.8:
-            tree = ("group", False, [("c", tree)])
-        try:
-            conditions = build(tree)
-        except ValueError:
-            chk.count("constructor_rejected")
-            continue
-        cutoff, circ, genes = gen_layout(rng)
-        scores = [t for t in (0, 10, 25, 50)]
-        hits = gen_hits(rng, genes, scores)
+    def add_cases(tree, conditions, cutoff, circ, genes, hits, tag=None):
         features = {f"g{gid}": types.SimpleNamespace(location=mk_location(parts)) for gid, parts in genes}
         results = {f"g{gid}": [ProfileHit(f"g{gid}", pname(p), s2 / 2, 1e-10) for p, s2 in hs] for gid, hs in hits.items()}
         try:
@@ -211,12 +375,7 @@ def run(chk):
             # no positive condition: the rule class refuses it; the evaluator is still exercised directly
             detect = lambda name: conditions.get_satisfied(rp.Details(name, features, results, cutoff, circ))
             chk.count("via_Conditions_only")
-        ctx = [cutoff] + ([0] if circ is None else [1, circ]) + [len(genes)]
-        for gid, parts in genes:
-            ctx += [gid, len(parts)] + [x for p in parts for x in p]
-        ctx.append(len(hits))
-        for gid, hs in hits.items():
-            ctx += [gid, len(hs)] + [x for h in hs for x in h]
+        ctx = enc_ctx(cutoff, circ, genes, hits)
         etree = enc_tree(tree)
         nleaves = leaves(tree)
         wrap = circ if circ else None
@@ -231,21 +390,87 @@ def run(chk):
                                                                    wrap) < cutoff for o, _ in genes)
             cases.append(flat)
             impl_outs.append(out)
+            sample = {"tree": tree, "cutoff": cutoff, "circular_origin": circ, "genes": genes, "hits": hits,
+                      "gene": gid, "implementation": out}
+            inputs.append(sample)
             chk.count("met" if out[0] == 1 else "not_met")
             if out[0] == 1 and out[1] > 0:
                 chk.count("anchor")
+                if out[2 + out[1]] > 0:
+                    chk.count("anchor_with_ancillary")
             chk.count(f"leaves_{min(nleaves, 6)}")
-            chk.note_case(flat, nleaves >= 2 and near,
-                          {"tree": tree, "cutoff": cutoff, "circular_origin": circ, "genes": genes, "hits": hits,
-                           "gene": gid, "implementation": out})
+            if tag:
+                chk.count(tag)
+            chk.note_case(flat, nleaves >= 2 and near, sample)
+
+    while len(cases) < target:
+        if rng.random() < 0.5:
+            # a top-level or-list of and-chains, as the parser builds for `CONDITIONS a and b or c ...`
+            tree = ("group", rng.random() < 0.1, trees.items(rng.choice([0, 1, 2, 3]), False))
+        else:
+            tree = trees.cond(rng.choice([1, 2, 3, 4]), False)
+        if tree[0] not in ("group", "cds") and rng.random() < 0.8:
+            tree = ("group", False, [("c", tree)])
+        try:
+            conditions = build(tree)
+        except ValueError:
+            chk.count("constructor_rejected")
+            continue
+        cutoff, circ, genes = gen_layout(rng)
+        hits = gen_hits(rng, genes, [0, 10, 25, 50])
+        add_cases(tree, conditions, cutoff, circ, genes, hits)
+    if chk.tier == "thorough":
+        n_before = len(cases)
+        for tree, cutoff, circ, genes, hits in exhaustive_small():
+            try:
+                conditions = build(tree)
+            except ValueError:
+                chk.count("exhaustive_constructor_rejected")
+                continue
+            add_cases(tree, conditions, cutoff, circ, genes, hits, tag="exhaustive_small")
+        chk.extra["exhaustive_subdomain"] = (
+            f"{len(cases) - n_before} evaluations: every tree L | L1 and L2 | L1 or L2 | [not] cds(L1 and/or L2) with leaves "
+            "from {[not] p, [not] minscore(p,10), [not] minimum(k,[p0,p1]) : p in {p0,p1}, k in {1,2}} (no minimum inside cds) "
+            "x two genes at gap {cutoff-1, cutoff} on a line and across the origin of a ring x every assignment of "
+            "{absent, score 9.5, score 10} to (gene, profile); coverage of the correspondence, not the unbounded claim")
+    # the independent verdict first (it yields a failing input), then the model/implementation correspondence
+    spec_outs = spec_verdicts(chk, cases, impl_outs, 2, "DetectionRule.detect vs holds/reasons/anc_spec",
+                              lambda i: inputs[i])
     model_outs = common.correspondence(chk, cases, impl_outs,
                                        describe=lambda flat: {"function": "DetectionRule.detect", "payload": flat[2:]})
+    # C01_met / C01_reasons / C01_ancillary say model = specification: observed too (canonical forms included)
+    differ = [i for i, (m, s) in enumerate(zip(model_outs, spec_outs)) if m != s]
+    chk.extra["model_vs_spec_differ"] = len(differ)
+    if differ:
+        i = min(differ, key=lambda k: len(cases[k]))
+        chk.violation("broken-correspondence", f"extracted model and extracted specification differ on {len(differ)} case(s) "
+                      "although C01_met/C01_reasons/C01_ancillary prove them equal (results_known violated by the generator?)",
+                      {"theorem_or_correspondence": "C01_met, C01_reasons, C01_ancillary", "flat": cases[i],
+                       "model": model_outs[i], "specification": spec_outs[i], "input": inputs[i]})
     chk.crosscheck_vm(cases, model_outs)
+
+    a_cases, a_impl, a_inputs = apply_rules_stream(chk, rng, trees, names, 2500 if chk.tier == "quick" else 40000)
+    a_spec = spec_verdicts(chk, a_cases, a_impl, 4, "apply_cluster_rules (one rule) vs recorded_spec", lambda i: a_inputs[i])
+    a_model = common.correspondence(chk, a_cases, a_impl, label="apply_cluster_rules promotion loop: model vs implementation",
+                                    describe=lambda flat: {"function": "apply_cluster_rules", "payload": flat[2:]})
+    differ = [i for i, (m, s) in enumerate(zip(a_model, a_spec)) if m != s]
+    chk.extra["apply_model_vs_spec_differ"] = len(differ)
+    if differ:
+        i = min(differ, key=lambda k: len(a_cases[k]))
+        chk.violation("broken-correspondence", f"apply_rule model and specification differ on {len(differ)} case(s)",
+                      {"theorem_or_correspondence": "C01_rule_domains", "flat": a_cases[i], "model": a_model[i],
+                       "specification": a_spec[i], "input": a_inputs[i]})
+    chk.crosscheck_vm(a_cases, a_model, k=60 if chk.tier == "quick" else 400)
     return chk.finish(RULE)
 
 
 def replay(chk, path):
     import json
     doc = json.load(open(path))
-    print("model:", common.run_driver([doc["flat"]])[0], "recorded implementation:", doc.get("implementation"))
+    flat = doc["flat"]
+    spec_fn = {1: 2, 2: 2, 3: 4, 4: 4}.get(flat[1], 2)
+    model_fn = {1: 1, 2: 1, 3: 3, 4: 3}.get(flat[1], 1)
+    model, spec = common.run_driver([[flat[0], model_fn] + flat[2:], [flat[0], spec_fn] + flat[2:]])
+    print("model:", model, "specification:", spec, "recorded implementation:", doc.get("implementation"))
+    print("decoded input:", json.dumps(doc.get("input"))[:2000])
     return 0
